@@ -339,4 +339,56 @@ theorem copied_engine_not_product :
     exact absurd h1 (by decide)
   · norm_num [chainProb]
 
+/-! ## G: gamma-based samplers with the underflow fallback (fixes/C08-8) -/
+
+/-- **G8** with the fallback the result is a valid probability vector for EVERY outcome of the gamma draws
+    (non-negative, possibly all zero): no hypothesis on their sum is left -/
+theorem dirichletWithFallback_valid (gs hs : List Rat) (hnn : ∀ g ∈ gs, 0 ≤ g)
+    (h01 : ∀ h ∈ hs, 0 ≤ h ∧ h ≤ 1) (h1 : (1 : Rat) ∈ hs) (hlen : hs.length = gs.length) :
+    (dirichletWithFallback gs hs).length = gs.length ∧ (∀ y ∈ dirichletWithFallback gs hs, 0 ≤ y) ∧
+      (dirichletWithFallback gs hs).sum = 1 := by
+  unfold dirichletWithFallback
+  by_cases h0 : gs.sum = 0
+  · simp only [h0, beq_self_eq_true, if_true]
+    obtain ⟨a, b, _, _⟩ := dirichlet_valid_of_max_one hs h01 h1
+    exact ⟨by rw [mo_dirichlet_length, hlen], a, b⟩
+  · have hb : (gs.sum == 0) = false := by simpa using h0
+    simp only [hb, Bool.false_eq_true, if_false]
+    have hs : 0 < gs.sum := lt_of_le_of_ne (List.sum_nonneg hnn) (Ne.symm h0)
+    obtain ⟨a, b⟩ := dirichlet_valid_nonneg gs hnn hs
+    exact ⟨mo_dirichlet_length gs, a, b⟩
+
+theorem dirichletWithFallback_isProb (gs hs : List Rat) (hnn : ∀ g ∈ gs, 0 ≤ g)
+    (h01 : ∀ h ∈ hs, 0 ≤ h ∧ h ≤ 1) (h1 : (1 : Rat) ∈ hs) (hlen : hs.length = gs.length) :
+    isProb (dirichletWithFallback gs hs) = true := by
+  obtain ⟨_, a, b⟩ := dirichletWithFallback_valid gs hs hnn h01 h1 hlen
+  rw [dense_isProb_iff]
+  refine ⟨a, ?_⟩
+  rw [b]; norm_num [absQ, Gen.equalToleranceSmall]
+
+/-- the stream of ordinary parameters is untouched: with a positive sum the fallback numbers are not used -/
+theorem dirichletWithFallback_eq_plain (gs hs : List Rat) (h : gs.sum ≠ 0) :
+    dirichletWithFallback gs hs = dirichletFromGammas gs := by
+  unfold dirichletWithFallback
+  have hb : (gs.sum == 0) = false := by simpa using h
+  simp [hb]
+
+/-- **G9** Beta with the fallback: always inside [0, 1] -/
+theorem betaWithFallback_in_unit (x y hx hy : Rat) (h0x : 0 ≤ x) (h0y : 0 ≤ y)
+    (hhx : 0 ≤ hx) (hhy : 0 ≤ hy) (hmax : hx = 1 ∨ hy = 1) :
+    0 ≤ betaWithFallback x y hx hy ∧ betaWithFallback x y hx hy ≤ 1 := by
+  unfold betaWithFallback betaFromGammas
+  by_cases h0 : x + y = 0
+  · simp only [h0, beq_self_eq_true, if_true]
+    have hp : 0 < hx + hy := by rcases hmax with h | h <;> rw [h] <;> linarith
+    exact ⟨div_nonneg hhx (le_of_lt hp), by rw [div_le_one hp]; linarith⟩
+  · have hb : (x + y == 0) = false := by simpa using h0
+    simp only [hb, Bool.false_eq_true, if_false]
+    have hp : 0 < x + y := lt_of_le_of_ne (add_nonneg h0x h0y) (Ne.symm h0)
+    exact ⟨div_nonneg h0x (le_of_lt hp), by rw [div_le_one hp]; linarith⟩
+
+/-- test: every draw underflowed, fallback numbers (1, 1/4) -/
+example : dirichletWithFallback [0, 0] [1, 1/4] = [4/5, 1/5] := by
+  norm_num [dirichletWithFallback, dirichletFromGammas]
+
 end AITB.Sampling
